@@ -177,7 +177,8 @@ func argsOfPoint(p int) *args.Args {
 
 var policyCatalogue = map[string][]string{
 	"[]": {`["==", ".x", 7]`, `["<", ".x", 0]`, `["and", [[">", ".x", 1], ["<", ".x", 1]]]`, `["like", ".s", "w*"]`, `["any", ".l", ["==", ".", 5]]`,
-		`["==", ".t[0:1]", "e"]`, `["not", ["==", ".t[-1:]", "ü"]]`, `["==", ".m.k", "0"]`, `["<=", ".f", 0]`, `[">=", ".f", 3]`, `["<", ".big", 0]`},
+		`["==", ".t[0:1]", "e"]`, `["not", ["==", ".t[-1:]", "ü"]]`, `["==", ".m.k", "0"]`, `["<=", ".f", 0]`, `[">=", ".f", 3]`, `["<", ".big", 0]`,
+		`["==", ".y?.z", 1]`, `["like", ".y?[0]", "*"]`, `["any", ".e", ["==", ".", 1]]`, `["any", ".e", [">=", ".", 0]]`, `["not", ["all", ".e", ["==", ".", 1]]]`},
 	"[0]": {`["==", ".x", 0]`, `["<", ".x", 1]`, `["not", [">", ".x", 0]]`, `["like", ".s", "*0"]`, `["any", ".l", ["==", ".", 0]]`, `["<=", ".x", 0]`,
 		`["==", ".t[1:2]", "0"]`, `["like", ".t[1:]", "0*"]`, `["==", ".l[-2]", 0]`, `["==", ".m.k", 0]`},
 	"[1]": {`["==", ".x", 1]`, `["and", [[">", ".x", 0], ["<", ".x", 2]]]`, `["like", ".s", "v1"]`, `["any", ".l", ["==", ".", 1]]`,
@@ -190,7 +191,7 @@ var policyCatalogue = map[string][]string{
 	"[1 2]": {`[">", ".f", 0.5]`, `[">", ".x", 0]`, `[">=", ".x", 1]`, `["all", ".l", [">", ".", 0]]`, `["not", ["==", ".x", 0]]`, `["not", ["like", ".t[:2]", "é0"]]`},
 	"[0 1 2]": {`[">=", ".x", 0]`, `["<=", ".x", 2]`, `["like", ".s", "v*"]`, `["all", ".l", [">=", ".", 0]]`, `["any", ".l", ["==", ".", 9]]`, `["not", ["==", ".x", 7]]`,
 		`["==", ".t[:1]", "é"]`, `["==", ".t[2:]", "ü"]`, `["==", ".l[-1]", 9]`, `["==", ".l[1]", 9]`, `["like", ".t", "é*ü"]`,
-		`[">", ".big", 0]`, `["<=", ".x", 9007199254740991]`, `[">=", ".x", -9007199254740991]`, `["<=", ".big", 9007199254740991]`, `[">=", ".f", 0.5]`, `["<=", ".f", 2.5]`},
+		`["all", ".e", ["==", ".", 1]]`, `["not", ["any", ".e", [">=", ".", 0]]]`, `[">", ".big", 0]`, `["<=", ".x", 9007199254740991]`, `[">=", ".x", -9007199254740991]`, `["<=", ".big", 9007199254740991]`, `[">=", ".f", 0.5]`, `["<=", ".f", 2.5]`},
 	"[0 1 2 3]": {`["==", ".y?", 3]`, `["and", []]`, `["like", ".y?", "*"]`, `["and", [["==", ".y?", 3], [">", ".z?", 0]]]`, `["==", ".l?[5]?", 1]`},
 }
 
@@ -203,6 +204,7 @@ func concreteArgs(p int) *args.Args {
 	_ = a.Add("m", map[string]any{"k": p})
 	_ = a.Add("f", float64(p)+0.5)
 	_ = a.Add("big", int64(1)<<53-1)
+	_ = a.Add("e", []int{})
 	return a
 }
 
@@ -353,6 +355,21 @@ func (w *world) link(l absLink, now int) (*matLink, error) {
 
 type mapLoader map[cid.Cid]*delegation.Token
 
+// loaders that fail abnormally on a delegation they do not have: (nil, nil) instead of an error, or a panic.
+// Whatever they do, an invocation whose proof cannot be loaded is not reported as allowed.
+type nilLoader struct{ m mapLoader }
+
+func (l nilLoader) GetDelegation(c cid.Cid) (*delegation.Token, error) { return l.m[c], nil }
+
+type panicLoader struct{ m mapLoader }
+
+func (l panicLoader) GetDelegation(c cid.Cid) (*delegation.Token, error) {
+	if t, ok := l.m[c]; ok {
+		return t, nil
+	}
+	panic("delegation store: no such delegation " + c.String())
+}
+
 func (m mapLoader) GetDelegation(c cid.Cid) (*delegation.Token, error) {
 	if t, ok := m[c]; ok {
 		return t, nil
@@ -388,6 +405,12 @@ func (w *world) validateReal(c *chainCase, variant int) (allowed bool, stage str
 		cw.AddSealed(m.id, m.sealed)
 	}
 	var loader delegation.Loader = ml
+	switch variant % 11 {
+	case 9:
+		loader = nilLoader{ml}
+	case 10:
+		loader = panicLoader{ml}
+	}
 	if variant%8 == 7 {
 		var data []byte
 		var rd container.Reader
@@ -483,6 +506,14 @@ func (w *world) validateReal(c *chainCase, variant int) (allowed bool, stage str
 	case "empty":
 		verr = inv.ExecutionAllowedWithArgsHook(loader, func(a args.ReadOnly) (*args.Args, error) {
 			return args.New(), nil
+		})
+	case "add":
+		verr = inv.ExecutionAllowedWithArgsHook(loader, func(a args.ReadOnly) (*args.Args, error) {
+			c := a.WriteableClone()
+			if err := c.Add("added-by-hook", 1); err != nil {
+				return nil, err
+			}
+			return c, nil
 		})
 	case "c0", "c1", "c2":
 		k := int(c.Inv.Hook[1] - '0')
@@ -679,7 +710,8 @@ func init() {
 		}
 		w := newWorld(seed, algs)
 		names := []string{"A", "B", "C", "D", "E", "M"}
-		segs := []string{"a", "ab", "b", "crud", "é", "a-b", "x1"}
+		// incl. pairs of DIFFERENT lower-case letters that Unicode case folding identifies (micro sign / mu, final / medial sigma, long s / s)
+		segs := []string{"a", "ab", "b", "crud", "é", "a-b", "x1", "\u00b5s", "\u03bcs", "\u03c2", "\u03c3", "\u017f", "s"}
 		randCmd := func(maxSeg int) []string {
 			k := rng.Intn(maxSeg + 1)
 			if k == 0 {
